@@ -21,7 +21,7 @@ Proof.
 Qed.
 
 (* ---------- count_sizes ---------- *)
-Lemma count_sizes_spec : forall cs bits, Forall (fun c => 0 <= c <= 17) cs -> zlen bits = 257 ->
+Lemma count_sizes_spec : forall cs bits, Forall (fun c => 0 <= c <= 256) cs -> zlen bits = 257 ->
   exists bits', count_sizes cs bits = Ok bits' /\ zlen bits' = 257 /\
     forall i, 0 <= i < 257 -> znth bits' i 0 = znth bits i 0 + (if 1 <=? i then cnt cs i else 0).
 Proof.
@@ -60,7 +60,9 @@ Qed.
 Lemma count_sizes_b17 : forall cs, Forall (fun c => 0 <= c <= 17) cs ->
   count_sizes cs (repeat 0 257) = Ok (0 :: b17_of cs ++ repeat 0 239).
 Proof.
-  intros cs Hc. destruct (count_sizes_spec cs (repeat 0 257) Hc eq_refl) as (bits' & E & L & Hv).
+  intros cs Hc.
+  assert (Hc256 : Forall (fun c => 0 <= c <= 256) cs) by (eapply Forall_impl; [|exact Hc]; cbv beta; intros; lia).
+  destruct (count_sizes_spec cs (repeat 0 257) Hc256 eq_refl) as (bits' & E & L & Hv).
   assert (L2 : zlen (0 :: b17_of cs ++ repeat 0 239) = 257).
   { unfold zlen. cbn [length]. rewrite app_length, repeat_length. unfold b17_of. rewrite map_length, seqZ_length. reflexivity. }
   rewrite E. f_equal. apply list_ext_znth.
@@ -294,3 +296,28 @@ Proof.
   - rewrite build_optimal_unfold, Eloop, obind_Ok', (count_sizes_b17 cs Hr), obind_Ok', Elim. reflexivity.
   - apply table_ok_intro; try assumption. rewrite P2, Vl. reflexivity.
 Qed.
+
+(* ---------- no index panic at bits[size]++ for ANY frequency vector (finding F48) ---------- *)
+(* For any 256 non-negative counters with sum < 2^63 the merge loop terminates with code sizes
+   <= 256 and count_sizes (bits[codeSize]++ on the 257-entry array) succeeds; what is left of
+   BuildOptimalHuffmanTable is the length limiting of that count vector. *)
+Theorem build_optimal_count_sizes_ok : forall freqs, freqs_gen freqs ->
+  exists cs bits,
+    merge_loop 258 (freq0 freqs) (repeat 0 257) (repeat (-1) 257) = Ok cs /\
+    count_sizes cs (repeat 0 257) = Ok bits /\
+    build_optimal freqs =
+    obind (limit_all sizes_hi bits) (fun bits' =>
+      Ok (firstn 16 (skipn 1 (remove_pseudo 257 bits' 256)), opt_values cs)).
+Proof.
+  intros freqs Hok. destruct (merge_result_gen freqs Hok) as (cs & Eloop & L & Hc).
+  destruct (count_sizes_spec cs (repeat 0 257) Hc eq_refl) as (bits & E & _ & _).
+  exists cs, bits. split; [exact Eloop|]. split; [exact E|].
+  rewrite build_optimal_unfold, Eloop, obind_Ok', E, obind_Ok'. reflexivity.
+Qed.
+
+(* not proved: the length limiting never indexes bits[-1] (libjpeg's `while (bits[j] == 0) j--`
+   relies on the Kraft equality of the count vector) and never runs out of the model's fuel,
+   for ANY such frequency vector; proved above for the vectors the lossless encoders produce
+   (build_optimal_ok) *)
+Definition build_optimal_no_panic_statement : Prop :=
+  forall freqs, freqs_gen freqs -> exists bv, build_optimal freqs = Ok bv.
